@@ -402,6 +402,6 @@ def replay(rec):
 CLAIM = {
     "tech": "Coq proof over the same Gallina model of the OPC loader as C01 with well-formedness dropped (classification of every outcome of Presentation(), case-insensitive lookup, regularisation, slide renaming) + fault injection at every applicable location of corpus decks run on the implementation and on the extracted model + independent oracle of the property's statement",
     "text": "12 theorems closed under the global context: opening yields only PackageNotFoundError / BadZipFile (reader outcomes), KeyError, ValueError, an lxml parse error, or a loaded package, and each refusal is characterised by decidable causes on the physical package (no content types item, untyped reached member, no / several / external officeDocument relationship, non-presentation main part, undecodable item); a loaded package is closed (dangling internal relationships were dropped); the content type lookup depends on Default extensions, Override names and the part name only through lower-casing; when the regularised form (dangling relationships, unreferenced members and rels items of absent parts removed, empty rels items supplied) is well-formed, the irregular package opens with the same package relationships and the same parts as its regularised form, which by C01 are exactly the still-reachable ones; rename_slide_parts names the j-th listed slide slide(j+1).xml and fails only with KeyError / ValueError. Tied to the implementation by about 950 (quick, 8 decks) / 15,000 (thorough, 67 decks, singles and 120 sampled pairs per deck) injected cases as stream, zip path, directory and missing path, comparing exception class or loaded graph and slide renaming with the model, and by replaying regularise on the implementation.",
-    "note": "what zipfile / os.path make of bytes and paths is observed with the same calls, not proved (a truncated deck ending inside an embedded workbook is read as that workbook and refused with ValueError); whether directories count as members of a directory-form package is re-read from _DirPkgReader.__contains__ each run; access to prs.slides after opening (KeyError when a slide relationship was dropped as dangling) is compared with the model but is not part of the oracle; equality of the saved bytes of an irregular package and of its regularised form is exercised, not proved (C16_save_partial).",
+    "note": "what zipfile / os.path make of bytes and paths is observed with the same calls, not proved (a truncated deck ending inside an embedded workbook is read as that workbook and refused with ValueError); whether directories count as members of a directory-form package is re-read from _DirPkgReader.__contains__ each run; access to prs.slides after opening (KeyError when a slide relationship was dropped as dangling) is compared with the model but is not part of the oracle; equality of the saved bytes of an irregular package and of its regularised form is proved (C16_save, C16_save_on) and exercised.",
     "ref": "6/C16",
 }
